@@ -564,13 +564,15 @@ def c12_monitor(ctx, tr, ix):
                 if q_ != int(q_) and all(x["long"]["qty"] == int(x["long"]["qty"]) for x in pre["holdings"]):
                     ctx.witness("C12.5", {"kind": "fractional_quantity_after_conversion"}, "settlement on %s: %s holds %r shares after a share conversion" % (a.get("today"), h["id"], q_), rp)
         reinvested = collections.Counter()
+        reinvest_fees = 0.0
         for nop in mine_nested:
             if nop["op"] == "apply_trade" and nop["args"].get("order") is None and nop["args"]["side"] == "BUY":
                 reinvested[nop["args"]["id"]] += nop["args"]["qty"]
+                reinvest_fees += nop["args"].get("fee", 0.0)       # the purchase of the reinvested shares costs its commission, like any trade (C11)
         if op["op"] == "_on_before_trading":
             today8 = a["today"]
             prev8 = ix.prev_day8(today8)
-            allowed = 0.0       # split rounding + interest compounding
+            allowed = -reinvest_fees       # fee of a reinvestment purchase + split rounding + interest compounding
             actions = []
             for h in pre["holdings"]:
                 oid = h["id"]
